@@ -461,14 +461,23 @@ pub fn plans(tier: &str) -> Vec<(Params, Cost)> {
         Params { name: "crash-restart-crash/threshold-3/two-entries-per-segment".into(), crash: true, max_crashes: 2, writers: vec![vec![(1, 0), (2, 0), (3, 0), (4, 0), (5, 0)]], after_restart: vec![], after_restart2: vec![(6, 0)], flush_row_count: 3, max_segment_size: 2 * 700, ticks: 0, hooks: vec!["write:after_wal_append".to_string(), "flush:before_persist".to_string()], ..base.clone() },
         Cost { preempt: 0, crash: 2, ..Cost::ZERO },
     ));
+    // schema change (flush-before-append inside a write), a write after the restart, rotation on every entry: in both tiers
+    v.push((
+        Params { name: "crash/schema-change+write-after-restart+rotate-every-entry".into(), crash: true, writers: vec![vec![(1, 0), (3, 1)], vec![(2, 0)]], after_restart: vec![(4, 0)], max_segment_size: 1, ticks: 2, ..base.clone() },
+        Cost { preempt: if t { 2 } else { 1 }, crash: 1, ..Cost::ZERO },
+    ));
+    v.push((
+        Params { name: "fault+crash/schema-change".into(), crash: true, faults: true, writers: vec![vec![(1, 0), (3, 1)], vec![(2, 0)]], after_restart: vec![(4, 0)], ..base.clone() },
+        Cost { preempt: if t { 1 } else { 0 }, fault: 1, crash: 1, ..Cost::ZERO },
+    ));
+    v.push((
+        Params { name: "2 faults+crash/schema-change".into(), crash: true, faults: true, writers: vec![vec![(1, 0), (3, 1)], vec![(2, 0)]], after_restart: vec![], ticks: 1, ..base.clone() },
+        Cost { preempt: 0, fault: 2, crash: 1, ..Cost::ZERO },
+    ));
     if t {
         v.push((
             Params { name: "crash-restart-crash/2-writers/rotate-every-entry".into(), crash: true, max_crashes: 2, writers: vec![vec![(1, 0), (3, 0)], vec![(2, 0), (4, 0)]], after_restart: vec![(5, 0)], after_restart2: vec![(6, 0)], max_segment_size: 1, ticks: 1, ..base.clone() },
             Cost { preempt: 1, crash: 2, ..Cost::ZERO },
-        ));
-        v.push((
-            Params { name: "2 faults+crash/schema-change".into(), crash: true, faults: true, writers: vec![vec![(1, 0), (3, 1)], vec![(2, 0)]], after_restart: vec![], ticks: 1, ..base.clone() },
-            Cost { preempt: 0, fault: 2, crash: 1, ..Cost::ZERO },
         ));
         v.push((
             Params { name: "2 faults+crash/one-schema/4-writes".into(), crash: true, faults: true, writers: vec![vec![(1, 0), (3, 0), (4, 0)], vec![(2, 0)]], after_restart: vec![], ticks: 1, ..base.clone() },
@@ -476,14 +485,6 @@ pub fn plans(tier: &str) -> Vec<(Params, Cost)> {
         ));
         v.push((Params { name: "crash/all-hooks".into(), crash: true, hooks: hooks(true), ..base.clone() }, Cost { preempt: 2, crash: 1, ..Cost::ZERO }));
         v.push((Params { name: "crash/3-preemptions".into(), crash: true, ..base.clone() }, Cost { preempt: 3, crash: 1, ..Cost::ZERO }));
-        v.push((
-            Params { name: "crash/schema-change+write-after-restart+rotate-every-entry".into(), crash: true, writers: vec![vec![(1, 0), (3, 1)], vec![(2, 0)]], after_restart: vec![(4, 0)], max_segment_size: 1, ticks: 2, ..base.clone() },
-            Cost { preempt: 2, crash: 1, ..Cost::ZERO },
-        ));
-        v.push((
-            Params { name: "fault+crash/schema-change".into(), crash: true, faults: true, writers: vec![vec![(1, 0), (3, 1)], vec![(2, 0)]], after_restart: vec![(4, 0)], ..base.clone() },
-            Cost { preempt: 1, fault: 1, crash: 1, ..Cost::ZERO },
-        ));
     }
     v
 }
